@@ -25,11 +25,31 @@ pub fn split_rtu_public(d: &[u8]) -> Option<Vec<(u8, Vec<u8>)>> {
     stream::split_rtu_clean(d, true)
 }
 
+/// the clean RTU request frames at the head of `d` (what is behind them may be incomplete)
+pub fn rtu_frames_prefix(d: &[u8]) -> Vec<(u8, Vec<u8>)> {
+    let mut out = vec![];
+    let mut i = 0;
+    while i < d.len() {
+        let next = (4..=(d.len() - i).min(260))
+            .find_map(|n| stream::split_rtu_clean(&d[i..i + n], true).filter(|v| v.len() == 1).map(|v| (v[0].clone(), n)));
+        match next {
+            Some((f, n)) => {
+                out.push(f);
+                i += n;
+            }
+            None => break,
+        }
+    }
+    out
+}
+
 pub fn generate(out: &mut Out, prop: &str, thorough: bool, seed: u64) {
     let mut rng = Rng::new(seed ^ prop_salt(prop));
     match prop {
         "C01" => {
             client::gen_c01(out, &mut rng, thorough);
+            // "exactly one frame" also for the request that follows one left half-written
+            client::gen_c13_second_send(out, &mut rng, thorough);
             netgen::gen_serial_server(out, &mut rng, if thorough { 100 } else { 8 });
             netgen::gen_c01_sync(out, &mut rng, thorough)
         }
@@ -112,6 +132,11 @@ pub fn monitor_line(out: &mut Out, line: &str) {
     let prop = out.prop.clone();
     match prop.as_str() {
         "C01" => {
+            if client::is_second_send_line(&l) {
+                // judged on the whole wire: the second write carries the unsent tail of the first
+                client::mon_c13_second_send(out, &l, &r);
+                return;
+            }
             client::mon_c01(out, &l, &r);
             netgen::mon_c18(out, &l, &r);
             netgen::mon_c01_sync(out, &l, &r)
